@@ -112,6 +112,17 @@ def run_all(seed, tier, configs):
         if bad:
             res["ok"] = False
             res["problems"].append({"kind": "mismatch", "config": cfg, "first": bad[0], "count": len(bad)})
+        if not cfg["asan"] and cfg["threads"] == 1 and cfg["header"] == "capi":
+            # many dendrograms live at once, freed exactly once in three orders: the allocator's
+            # bytes in use must come back (glibc mallinfo2)
+            count = 60000 if tier == "thorough" else 20000
+            for order in (0, 1, 2):
+                rc, out = kv.sh("timeout 600 %s --soak %d %d" % (exe, count, order), cwd=kv.BUILD, env=dict(kv.ENV), timeout=700)
+                res["evaluations"] += count
+                res["runs"].append(dict(cfg, soak=count, order=order, rc=rc))
+                if rc != 0:
+                    res["ok"] = False
+                    res["problems"].append({"kind": "crash", "config": dict(cfg, soak=count, order=order), "detail": "driver --soak exit %d: %s" % (rc, out[-1500:])})
     return res
 
 
